@@ -86,18 +86,25 @@ def State.init : State := { objs := [], dead := [], bag := [], peers := [], next
 
 def isTopic (r : Ref) : Bool := r.chan == ""
 
-/-- the REGISTER commands of `connectCallback`: for every topic in the map, `REGISTER t` if it has no
-channels, else `REGISTER t c` for each channel -/
-def callbackCmds (objs : List Ref) : List Key :=
-  (objs.filter isTopic).flatMap (fun T =>
-    let cs := objs.filter (fun r => !isTopic r && r.topic == T.topic)
+/-- the REGISTER commands of `connectCallback` (tree with fixes/F14_connect_callback_skips_exiting.patch): for every
+topic in the map that is not exiting, `REGISTER t c` for each of its channels that is not exiting, or `REGISTER t`
+if there is none. `dead` = the objects whose exit flag is set. -/
+def callbackCmds (objs dead : List Ref) : List Key :=
+  (objs.filter (fun T => isTopic T && !dead.contains T)).flatMap (fun T =>
+    let cs := objs.filter (fun r => !isTopic r && r.topic == T.topic && !dead.contains r)
     if cs.isEmpty then [(T.topic, "")] else cs.map (fun r => (T.topic, r.chan)))
 
 def applyRegisters (cmds : List Key) (regs : List Key) : List Key :=
   cmds.foldl (fun acc k => register k.1 k.2 acc) regs
 
 /-- what a lookupd holds after a successful `connectCallback` on a fresh connection -/
-def callbackRegs (objs : List Ref) : List Key := applyRegisters (callbackCmds objs) []
+def callbackRegs (objs dead : List Ref) : List Key := applyRegisters (callbackCmds objs dead) []
+
+/-- `lookupHasTopic` / `lookupHasChannel` (fixes/F15_lookup_notify_current_state.patch): an object of that *name* is
+currently in the maps and not exiting — for a channel, in a topic that is in the map and not exiting. -/
+def nameLive (objs dead : List Ref) (t c : String) : Bool :=
+  objs.any (fun T => isTopic T && T.topic == t && !dead.contains T) &&
+  (c == "" || objs.any (fun r => r.topic == t && r.chan == c && !dead.contains r))
 
 /-- outcome of one `lookupPeer.Command` as decided by the lookupd / the network -/
 inductive Outcome
@@ -107,10 +114,10 @@ deriving DecidableEq, Repr
 
 /-- `lookupPeer.Command(cmd)`: (re)connect + connectCallback when needed, then the command itself.
 Any failure closes the connection (`lp.Close()`), and the lookupd drops that connection's registrations. -/
-def command (objs : List Ref) (apply : List Key → List Key) (p : Peer) (o : Outcome) : Peer :=
+def command (objs dead : List Ref) (apply : List Key → List Key) (p : Peer) (o : Outcome) : Peer :=
   match p.conn, o with
   | .up, .ok => { p with regs := apply p.regs }
-  | .down, .ok => { p with conn := .up, regs := apply (callbackRegs objs) }
+  | .down, .ok => { p with conn := .up, regs := apply (callbackRegs objs dead) }
   | _, _ => { p with conn := .down, regs := [] }
 
 def mapOutcomes (f : Peer → Outcome → Peer) : List Peer → List Outcome → List Peer
@@ -123,7 +130,7 @@ inductive Step
   | createChan (t c : String)
   | delBegin (r : Ref)               -- exit(true): exitFlag := 1, Notify
   | delUnlink (r : Ref)              -- delete(map, name)
-  | notify (r : Ref) (outs : List Outcome)   -- lookupLoop receives one notification and sends REGISTER/UNREGISTER to all peers
+  | notify (r : Ref) (outs : List Outcome)   -- lookupLoop receives one notification; REGISTER/UNREGISTER from the CURRENT state of its name
   | tick (outs : List Outcome)       -- heartbeat: PING to all peers
   | lookupdDrop (addr : Nat)         -- that lookupd closes the connection / restarts (its registry for us is gone)
   | addPeer (addr : Nat) (o : Outcome)   -- reconfigure: new address, `Command(nil)` starts the connection
@@ -154,15 +161,15 @@ def step (s : State) : Step → Option State
     if !s.bag.contains r then none
     else
       let apply : List Key → List Key :=
-        if s.dead.contains r then unregister r.topic r.chan else register r.topic r.chan
-      some { s with bag := s.bag.erase r, peers := mapOutcomes (command s.objs apply) s.peers outs }
-  | .tick outs => some { s with peers := mapOutcomes (command s.objs id) s.peers outs }
+        if nameLive s.objs s.dead r.topic r.chan then register r.topic r.chan else unregister r.topic r.chan
+      some { s with bag := s.bag.erase r, peers := mapOutcomes (command s.objs s.dead apply) s.peers outs }
+  | .tick outs => some { s with peers := mapOutcomes (command s.objs s.dead id) s.peers outs }
   | .lookupdDrop a =>
     some { s with peers := s.peers.map (fun p =>
       if p.addr == a then { p with conn := (if p.conn == .down then .down else .stale), regs := [] } else p) }
   | .addPeer a o =>
     if s.peers.any (fun p => p.addr == a) then none
-    else some { s with peers := s.peers ++ [command s.objs id ⟨a, .down, []⟩ o] }
+    else some { s with peers := s.peers ++ [command s.objs s.dead id ⟨a, .down, []⟩ o] }
   | .removePeer a => some { s with peers := s.peers.filter (fun p => p.addr != a) }
 
 def run (s : State) : List Step → Option State
@@ -171,6 +178,33 @@ def run (s : State) : List Step → Option State
     match step s st with
     | none => none
     | some s' => run s' rest
+
+/-! ## the trees without the two lookup fixes (for the counter-examples only)
+
+`f14 = false`: `connectCallback` registers every object in the maps, exiting or not (tree without
+fixes/F14_connect_callback_skips_exiting.patch). `f15 = false`: `lookupLoop` chooses REGISTER / UNREGISTER from the exit
+flag of the *notified object* (tree without fixes/F15_lookup_notify_current_state.patch). -/
+
+def stepG (f14 f15 : Bool) (s : State) : Step → Option State
+  | .notify r outs =>
+    if !s.bag.contains r then none
+    else
+      let live := if f15 then nameLive s.objs s.dead r.topic r.chan else !s.dead.contains r
+      let apply : List Key → List Key := if live then register r.topic r.chan else unregister r.topic r.chan
+      some { s with bag := s.bag.erase r,
+                    peers := mapOutcomes (command s.objs (if f14 then s.dead else []) apply) s.peers outs }
+  | .tick outs => some { s with peers := mapOutcomes (command s.objs (if f14 then s.dead else []) id) s.peers outs }
+  | .addPeer a o =>
+    if s.peers.any (fun p => p.addr == a) then none
+    else some { s with peers := s.peers ++ [command s.objs (if f14 then s.dead else []) id ⟨a, .down, []⟩ o] }
+  | st => step s st
+
+def runG (f14 f15 : Bool) (s : State) : List Step → Option State
+  | [] => some s
+  | st :: rest =>
+    match stepG f14 f15 s st with
+    | none => none
+    | some s' => runG f14 f15 s' rest
 
 /-! ## `GetTopic` pre-creation of channels -/
 
